@@ -3,8 +3,9 @@
 
 For each refactoring of the reference package the restored program must (1) contain the reference function again under its
 reference name, home and signature, and (2) compute the same results as the refactored source (both are executed on the same
-inputs). For each *near miss* (the same refactoring with one detail of the body changed) the reference function must NOT be
-restored. Only the checker's own transformation is executed here."""
+inputs). For each *near miss* (the same refactoring with one detail of the body changed) the reference *text* must never come
+back: either the function stays missing, or (rename / move of a clearly recognisable function) the current, edited body is put
+under the reference name so that the rules judge the edit. Only the checker's own transformation is executed here."""
 import ast, copy, os, sys, types
 sys.path.insert(0, os.path.dirname(os.path.dirname(os.path.abspath(__file__))))
 from sigstat import inline, restore
@@ -64,7 +65,7 @@ s = src_replace("pkg.a", "def _sum(values, scale, offset):\n    acc = offset\n  
 s = src_replace("pkg.a", "return _sum(self.cache.values(), scale, offset)", "return _weighted(self.cache.values(), scale, offset)", s)
 CASES.append(("rename", s, "pkg.a:_sum", True))
 s2 = src_replace("pkg.a", "total += v * scale", "total += v + scale", s)
-CASES.append(("rename, body edited", s2, "pkg.a:_sum", False))
+CASES.append(("rename, body edited", s2, "pkg.a:_sum", "successor"))
 
 # 2. move to the other module
 s = src_replace("pkg.a", "def _sum(values, scale, offset):\n    acc = offset\n    for v in values:\n        acc += v * scale\n    return acc\n", "")
@@ -155,11 +156,16 @@ def main():
         out, log = inline.inline_package({m: (t, False) for m, t in parse_pkg(srcs).items()}, known)
         have = {d.qual for m, t in out.items() for d in enumerate_defs(m, t)}
         got = execute(out, INPUTS)
-        ok = (qual in have) == should and got == want
+        if should == "successor":
+            # the edited function is analysed under the reference name - with its own (edited) body, never with the reference text
+            node = [d.node for m, t in out.items() for d in enumerate_defs(m, t) if d.qual == qual]
+            ok = bool(node) and ast.unparse(node[0]) != sources[qual]["src"] and "v + scale" in ast.unparse(node[0]) and got == want
+        else:
+            ok = (qual in have) == should and got == want
         extra = sorted(q for q in have if q not in known)
         if should and extra:
             ok = False
-        print(f"{'ok  ' if ok else 'FAIL'} {name}: reference function {'restored' if qual in have else 'not restored'} (expected: {'restored' if should else 'not restored'}); "
+        print(f"{'ok  ' if ok else 'FAIL'} {name}: reference function {'restored' if qual in have else 'not restored'} (expected: {'restored' if should is True else ('its edited body under the reference name' if should == 'successor' else 'not restored')}); "
               f"behaviour {'same' if got == want else 'DIFFERS'}; functions unknown to the reference afterwards: {extra}")
         if not ok:
             bad += 1
